@@ -142,7 +142,7 @@ def derived_sig(fl, os_):
     return {x for x in out if 'format' in x[1] or 'push' in x[1] or 'to_owned' in x[1] or 'short_hex' in x[1]}
 
 
-def side_rules(ctx, bs, copies):
+def side_rules(ctx, bs, copies, direction=False):
     fl = bs.afl
     cfg = fl.cfg
     A = bs.apply
@@ -204,6 +204,7 @@ def side_rules(ctx, bs, copies):
         strict_tie = meth in ('ge', 'le')   # ties can go either way as long as both ends agree: any total choice is fine
         tuples_ok = True
         n_t = 0
+        winners = set()
         for bi in cfg.reachable():
             for st in A.blocks[bi]['stmts']:
                 rv = st['rv']
@@ -217,14 +218,19 @@ def side_rules(ctx, bs, copies):
                     fp_side = lambda os_: {('a' if bs.is_param(call_arg_origins(fl, o.bb, 0), 'a') else 'b' if bs.is_param(call_arg_origins(fl, o.bb, 0), 'b') else '?')
                                            for o in os_ if o.kind == 'call' and o.key.endswith('::get')}
                     consistent = bs.is_param(ops_o[2], 'root_' + l) and fp_side(ops_o[1]) == {w} and fp_side(ops_o[3]) == {l}
-                    edge = oc.get('true') if w == win_true else oc.get('false')
-                    guarded = bool(edge) and cfg.edges_guard(edge, bi)
+                    if direction:
+                        edge = oc.get('true') if w == win_true else oc.get('false')
+                        guarded = bool(edge) and cfg.edges_guard(edge, bi)
+                    else:
+                        # C02 needs only consistency: each tuple sits on one edge of the comparison
+                        guarded = any(bool(e) and cfg.edges_guard(e, bi) for e in (oc.get('true'), oc.get('false')))
+                    winners.add(w)
                     if not (consistent and guarded):
                         tuples_ok = False
                         detail = 'tuple at bb%d: winner side %s, consistent=%s, guarded by the matching comparison edge=%s' % (bi, w, consistent, guarded)
-        if tuples_ok and n_t == 2:
+        if tuples_ok and n_t == 2 and winners == {'a', 'b'}:
             ok_t = True
-    ctx.check(ok_t, 'C02.R4', 'apply:BothChanged:winner-tuple', 'greater digest wins; (win_root, win_fp, lose_root, lose_fp) consistent on each edge',
+    ctx.check(ok_t, 'C02.R4', 'apply:BothChanged:winner-tuple', ('greater digest wins; ' if direction else '') + '(win_root, win_fp, lose_root, lose_fp) consistent on each edge',
               'winner/loser selection is inconsistent: %s' % detail, loc(A, A.lo))
 
 
